@@ -13,7 +13,16 @@ Lifted (see PINNED for the shapes on the repaired tree):
   byte, byte order;
 * VarcharProfiler: the width of the profiled prefix and whether hashing happens before the cut
   (statement order as data), the source of the text extremes;
-* NumericProfiler: the source of minimum and maximum (`int(numpy.min(column_data))`).
+* NumericProfiler: the source of minimum and maximum (`int(numpy.min(column_data))`);
+* get_kvm_hashes: what is de-duplicated before the smallest hashes are kept (the values, or the hashes), the
+  number of values that seed the heap (`data[:size]`), where the loop starts (`data[size:]`), the replacement
+  test (`hash_value < -min_hashes[0]`);
+* find_mfvs: the argument of `most_common`;
+* DataFrame.to_batches (orso/dataframe.py): the `range(...)` of the loop and the bounds of the row slice;
+* NumericProfiler: the filter of the histogram comprehension (`if count > 0`), the slice of `bin_edges` the counts
+  are zipped with, and that the kept pair carries the count;
+* DataFrame.profile (orso/dataframe.py): that the property recomputes (`return TableProfile.from_dataframe(self)`
+  under `@property` alone — no caching decorator, no stored result).
 
 Policy: an expression inside the translator's grammar is translated as it is (so a change of operator,
 operand or constant reaches the theorems); a statement that is no longer found, or an expression outside
@@ -45,6 +54,19 @@ PINNED = {
     "text.cut": [True, 64],
     "numeric.sources": ["reduceMin", "reduceMax"],
     "text.sources": ["reduceMin", "reduceMax"],
+    "sketch.dedup": "values",
+    "sketch.replace": "(hv < top)",
+    "sketch.init": "size",
+    "sketch.from": "size",
+    "mfv.take": "topN",
+    "batches.range": ["0", "rowcount", "batchSize"],
+    "batches.slice": ["i", "(i + batchSize)"],
+    "hist.keep": "(count > 0)",
+    "hist.edges": [0, 1, True],
+    "entry.recomputes": True,
+    "add.transitions": "(mine + (theirs + 1))",
+    "add.order": "(if (mine = theirs) then (some 0) else mine)",
+    "add.merges": ["intersection-summed", "set-union-sorted-cut"],
 }
 
 
@@ -62,6 +84,14 @@ def pinned_json():
         "profexpr.add.straight_line": P["add.straight_line"], "profexpr.key.clamp": P["key.clamp"],
         "profexpr.key.shape": P["key.shape"], "profexpr.text.cut": P["text.cut"],
         "profexpr.numeric.sources": P["numeric.sources"], "profexpr.text.sources": P["text.sources"],
+        "profexpr.sketch.dedup": P["sketch.dedup"], "profexpr.sketch.replace": P["sketch.replace"],
+        "profexpr.sketch.init": P["sketch.init"], "profexpr.sketch.from": P["sketch.from"],
+        "profexpr.mfv.take": P["mfv.take"], "profexpr.batches.range": P["batches.range"],
+        "profexpr.batches.slice": P["batches.slice"],
+        "profexpr.hist.keep": P["hist.keep"], "profexpr.hist.edges": P["hist.edges"],
+        "profexpr.entry.recomputes": P["entry.recomputes"],
+        "profexpr.add.transitions": P["add.transitions"], "profexpr.add.order": P["add.order"],
+        "profexpr.add.merges": P["add.merges"],
     }
 
 
@@ -361,6 +391,184 @@ def generate(o, _force_pinned=False):
             raise KeyError("self.profile.minimum / maximum")
         return [classify(lo[0], wrapper), classify(hi[0], wrapper)]
 
+    # ---------------------------------------------------------------- get_kvm_hashes
+    def kvm_fn():
+        return find_function(tree, "get_kvm_hashes")
+
+    def _mentions_hash(n):
+        return "xxh32" in ast.unparse(n) or "hash" in ast.unparse(n).lower()
+
+    def sketch_dedup():
+        """'hashes' when the hashes are collected in a set (duplicates of *hashes* vanish); 'values' when the
+        data is de-duplicated (`data = list(set(data))` / iteration over `set(data)`) and the hashes are kept in a
+        list; anything else is not recognised."""
+        fn = kvm_fn()
+        for n in ast.walk(fn):
+            if isinstance(n, ast.SetComp) and _mentions_hash(n.elt):
+                return "hashes"
+            if (isinstance(n, ast.Call) and isinstance(n.func, ast.Name) and n.func.id in ("set", "frozenset") and len(n.args) == 1
+                    and isinstance(n.args[0], (ast.ListComp, ast.GeneratorExp)) and _mentions_hash(n.args[0].elt)):
+                return "hashes"
+        dd = [v for _, v in assignments(fn, "data")]
+        if len(dd) == 1 and ast.unparse(dd[0]) in ("list(set(data))", "set(data)", "tuple(set(data))", "list(dict.fromkeys(data))"):
+            comp = [v for _, v in assignments(fn, "min_hashes") if isinstance(v, ast.ListComp)]
+            if len(comp) == 1:
+                return "values"
+        raise KeyError("data = list(set(data)) + a list of hashes")
+
+    def sketch_init():
+        comp = [v for _, v in assignments(kvm_fn(), "min_hashes") if isinstance(v, ast.ListComp)]
+        if len(comp) != 1 or len(comp[0].generators) != 1 or comp[0].generators[0].ifs:
+            raise KeyError("min_hashes = [... for element in data[:size]]")
+        it = comp[0].generators[0].iter
+        if not (isinstance(it, ast.Subscript) and ast.unparse(it.value) == "data" and isinstance(it.slice, ast.Slice)
+                and it.slice.lower is None and it.slice.step is None and it.slice.upper is not None):
+            raise KeyError("data[:size]")
+        return to_lean(it.slice.upper, {"size": "size"})
+
+    def _kvm_loop():
+        loops = [n for n in kvm_fn().body if isinstance(n, ast.For)]
+        if len(loops) != 1:
+            raise KeyError("for element in data[size:]")
+        return loops[0]
+
+    def sketch_from():
+        it = _kvm_loop().iter
+        if not (isinstance(it, ast.Subscript) and ast.unparse(it.value) == "data" and isinstance(it.slice, ast.Slice)
+                and it.slice.upper is None and it.slice.step is None and it.slice.lower is not None):
+            raise KeyError("data[size:]")
+        return to_lean(it.slice.lower, {"size": "size"})
+
+    def sketch_replace():
+        loop = _kvm_loop()
+        tests = [n for n in loop.body if isinstance(n, ast.If)]
+        hv = [v for _, v in assignments(loop, "hash_value")]
+        if len(tests) != 1 or tests[0].orelse or len(hv) != 1 or "heappushpop(min_hashes, -hash_value)" not in ast.unparse(tests[0].body[0]):
+            raise KeyError("if <test>: heapq.heappushpop(min_hashes, -hash_value)")
+        return to_lean(tests[0].test, {"hash_value": "hv", "-min_hashes[0]": "top"})
+
+    def mfv_take():
+        fn = find_function(tree, "find_mfvs")
+        calls = [n for n in ast.walk(fn) if isinstance(n, ast.Call) and isinstance(n.func, ast.Attribute) and n.func.attr == "most_common"]
+        if len(calls) != 1 or len(calls[0].args) != 1 or calls[0].keywords or ast.unparse(calls[0].func.value) != "counter":
+            raise KeyError("counter.most_common(top_n)")
+        cnt = [v for _, v in assignments(fn, "counter")]
+        if len(cnt) != 1 or ast.unparse(cnt[0]) != "Counter(data)":
+            raise KeyError("counter = Counter(data)")
+        return to_lean(calls[0].args[0], {"top_n": "topN"})
+
+    # ---------------------------------------------------------------- DataFrame.to_batches
+    def batches_fn():
+        return find_function(Src("orso/dataframe.py").tree, "to_batches", "DataFrame")
+
+    def _batch_loop():
+        loops = [n for n in batches_fn().body if isinstance(n, ast.For)]
+        if len(loops) != 1 or ast.unparse(loops[0].target) != "i":
+            raise KeyError("for i in range(...)")
+        return loops[0]
+
+    BENV = {"self.rowcount": "rowcount", "len(self._rows)": "rowcount", "len(self)": "rowcount", "batch_size": "batchSize", "i": "i"}
+
+    def batches_range():
+        it = _batch_loop().iter
+        if not (isinstance(it, ast.Call) and ast.unparse(it.func) == "range" and not it.keywords and 1 <= len(it.args) <= 3):
+            raise KeyError("range(start, stop, step)")
+        args = list(it.args)
+        if len(args) == 1:
+            args = [ast.Constant(0), args[0], ast.Constant(1)]
+        elif len(args) == 2:
+            args = args + [ast.Constant(1)]
+        return [to_lean(a, BENV) for a in args]
+
+    def batches_slice():
+        loop = _batch_loop()
+        subs = [n for n in ast.walk(loop) if isinstance(n, ast.Subscript) and ast.unparse(n.value) == "self._rows" and isinstance(n.slice, ast.Slice)]
+        ys = [n for n in ast.walk(loop) if isinstance(n, (ast.Yield, ast.YieldFrom))]
+        if len(subs) != 1 or len(ys) != 1 or subs[0].slice.step is not None or subs[0].slice.lower is None or subs[0].slice.upper is None:
+            raise KeyError("yield DataFrame(rows=self._rows[lo:hi], ...)")
+        return [to_lean(subs[0].slice.lower, BENV), to_lean(subs[0].slice.upper, BENV)]
+
+    # ---------------------------------------------------------------- histogram comprehension
+    def _hist_comp():
+        a = [v for _, v in assignments(call_body("NumericProfiler"), "self.profile.histogram")]
+        if len(a) != 1 or not isinstance(a[0], ast.ListComp) or len(a[0].generators) != 1:
+            raise KeyError("self.profile.histogram = [... for count, left_edge in zip(hist_counts, bin_edges[:-1]) ...]")
+        comp = a[0]
+        g = comp.generators[0]
+        if ast.unparse(g.target) not in ("(count, left_edge)", "count, left_edge"):
+            raise KeyError("for count, left_edge in ...")
+        it = g.iter
+        if not (isinstance(it, ast.Call) and ast.unparse(it.func) == "zip" and len(it.args) == 2 and ast.unparse(it.args[0]) == "hist_counts"):
+            raise KeyError("zip(hist_counts, bin_edges[...])")
+        return comp, g, it.args[1]
+
+    def hist_keep():
+        comp, g, _ = _hist_comp()
+        if not g.ifs:
+            return "True"
+        if len(g.ifs) != 1:
+            raise KeyError("one filter")
+        if ast.unparse(g.ifs[0]) == "count":  # truthiness of an integer
+            return "(count ≠ 0)"
+        return to_lean(g.ifs[0], {"count": "count"})
+
+    def hist_edges():
+        comp, g, edges = _hist_comp()
+        if not (isinstance(edges, ast.Subscript) and ast.unparse(edges.value) == "bin_edges" and isinstance(edges.slice, ast.Slice) and edges.slice.step is None):
+            raise KeyError("bin_edges[lo:hi]")
+        lo = 0 if edges.slice.lower is None else ast.literal_eval(edges.slice.lower)
+        hi = 0 if edges.slice.upper is None else -ast.literal_eval(edges.slice.upper)
+        if not (isinstance(lo, int) and isinstance(hi, int) and lo >= 0 and hi >= 0):
+            raise KeyError("slice bounds")
+        keeps = isinstance(comp.elt, ast.Tuple) and len(comp.elt.elts) == 2 and ast.unparse(comp.elt.elts[1]) == "count"
+        return [lo, hi, bool(keeps)]
+
+    # ---------------------------------------------------------------- DataFrame.profile
+    def entry_recomputes():
+        fn = find_function(Src("orso/dataframe.py").tree, "profile", "DataFrame")
+        decos = [ast.unparse(d) for d in fn.decorator_list]
+        if "property" not in decos:
+            raise KeyError("@property def profile")
+        body = [st for st in fn.body if not isinstance(st, (ast.Import, ast.ImportFrom))
+                and not (isinstance(st, ast.Expr) and isinstance(st.value, ast.Constant))]
+        direct = len(body) == 1 and isinstance(body[0], ast.Return) and ast.unparse(body[0].value) in (
+            "TableProfile.from_dataframe(self)", "table_profiler(self)")
+        if decos != ["property"]:
+            return False  # something else wraps the call (a cache, a memo)
+        if direct:
+            return True
+        # any other body: recomputation cannot be read off the text
+        for n in ast.walk(fn):
+            if isinstance(n, (ast.Global, ast.Nonlocal)) or (isinstance(n, (ast.Attribute, ast.Subscript)) and isinstance(n.ctx, ast.Store)):
+                return False  # stores something across calls
+        raise KeyError("return TableProfile.from_dataframe(self)")
+
+    # ---------------------------------------------------------------- the rest of ColumnProfile.__add__
+    def add_transitions():
+        a = assignments(add_fn(), "new_profile.transitions")
+        if len(a) != 1 or not isinstance(a[0][0], ast.AugAssign):
+            raise KeyError("new_profile.transitions += ...")
+        return to_lean(a[0][1], {"new_profile.transitions": "mine", "profile.transitions": "theirs"})
+
+    def add_order():
+        a = assignments(add_fn(), "new_profile.order")
+        if len(a) != 1:
+            raise KeyError("new_profile.order = ...")
+        env = {"new_profile.order": "mine", "self.order": "mine", "profile.order": "theirs",
+               "0": "(some 0)", "1": "(some 1)", "-1": "(some (-1))", "None": "none"}
+        return to_lean(a[0][1], env)
+
+    def add_merges():
+        """Shapes of the two merges the model writes by hand; anything else is not recognised."""
+        fn = add_fn()
+        txt = ast.unparse(fn)
+        mf = ("combined_map[value] = morsel1_map[value] + morsel2_map[value]" in txt and "if value in morsel2_map" in txt
+              and "for value in morsel1_map" in txt)
+        km = "new_profile.kmv_hashes = sorted(set(self.kmv_hashes + profile.kmv_hashes))[:KVM_SIZE]" in txt
+        if not (mf and km):
+            raise KeyError("most-frequent / sketch merge")
+        return ["intersection-summed", "set-union-sorted-cut"]
+
     def ot(key):
         def g():
             return ot_parts()[key]
@@ -385,6 +593,19 @@ def generate(o, _force_pinned=False):
     tc = o.item("profexpr.text.cut", text_cut, PINNED["text.cut"])
     ns = o.item("profexpr.numeric.sources", lambda: sources("NumericProfiler", "int"), PINNED["numeric.sources"])
     ts = o.item("profexpr.text.sources", lambda: sources("VarcharProfiler", "string_to_int64"), PINNED["text.sources"])
+    sd = o.item("profexpr.sketch.dedup", sketch_dedup, PINNED["sketch.dedup"])
+    v["sk_replace"] = o.item("profexpr.sketch.replace", sketch_replace, PINNED["sketch.replace"])
+    v["sk_init"] = o.item("profexpr.sketch.init", sketch_init, PINNED["sketch.init"])
+    v["sk_from"] = o.item("profexpr.sketch.from", sketch_from, PINNED["sketch.from"])
+    v["mfv_take"] = o.item("profexpr.mfv.take", mfv_take, PINNED["mfv.take"])
+    br = o.item("profexpr.batches.range", batches_range, PINNED["batches.range"])
+    bsl = o.item("profexpr.batches.slice", batches_slice, PINNED["batches.slice"])
+    v["hist_keep"] = o.item("profexpr.hist.keep", hist_keep, PINNED["hist.keep"])
+    he = o.item("profexpr.hist.edges", hist_edges, PINNED["hist.edges"])
+    er = o.item("profexpr.entry.recomputes", entry_recomputes, PINNED["entry.recomputes"])
+    v["add_tr"] = o.item("profexpr.add.transitions", add_transitions, PINNED["add.transitions"])
+    v["add_or"] = o.item("profexpr.add.order", add_order, PINNED["add.order"])
+    o.item("profexpr.add.merges", add_merges, PINNED["add.merges"])
 
     def b(x):
         return "true" if x else "false"
@@ -436,6 +657,33 @@ def generate(o, _force_pinned=False):
     t += "def numericMaximumSource : Source := .%s\n" % ns[1]
     t += "def textMinimumSource : Source := .%s\n" % ts[0]
     t += "def textMaximumSource : Source := .%s\n" % ts[1]
+    t += "\n/-- get_kvm_hashes: what is de-duplicated before the smallest hashes are kept -/\n"
+    t += "def sketchDedup : SketchDedup := .%s\n" % sd
+    t += "/-- …the test under which a hash replaces the largest kept one (`hv` = hash_value, `top` = -min_hashes[0]) -/\n"
+    t += "def sketchReplaceTest (hv top : Nat) : Prop := %s\n" % v["sk_replace"]
+    t += "instance (hv top : Nat) : Decidable (sketchReplaceTest hv top) := by unfold sketchReplaceTest; infer_instance\n"
+    t += "/-- …how many values seed the heap (`data[:size]`) and where the loop starts (`data[size:]`) -/\n"
+    t += "def sketchInitCount (size : Nat) : Nat := %s\n" % v["sk_init"]
+    t += "def sketchLoopFrom (size : Nat) : Nat := %s\n" % v["sk_from"]
+    t += "/-- find_mfvs: the argument of `Counter(data).most_common(...)` -/\n"
+    t += "def mfvTakeCount (topN : Nat) : Nat := %s\n" % v["mfv_take"]
+    t += "\n/-- DataFrame.to_batches: `range(start, stop, step)` of the loop and the bounds of `self._rows[lo:hi]` -/\n"
+    t += "def batchRangeStart : Nat := %s\n" % br[0]
+    t += "def batchRangeStop (rowcount : Nat) : Nat := %s\n" % br[1]
+    t += "def batchRangeStep (batchSize : Nat) : Nat := %s\n" % br[2]
+    t += "def batchSliceLo (i batchSize : Nat) : Nat := %s\n" % bsl[0]
+    t += "def batchSliceHi (i batchSize : Nat) : Nat := %s\n" % bsl[1]
+    t += "\n/-- NumericProfiler: the filter of the histogram comprehension, the slice `bin_edges[lo : len - dropRight]` the\ncounts are zipped with, and whether the kept pair is `(left_edge, count)` -/\n"
+    t += "def histKeep (count : Nat) : Prop := %s\n" % v["hist_keep"]
+    t += "instance (count : Nat) : Decidable (histKeep count) := by unfold histKeep; infer_instance\n"
+    t += "def histEdgesFrom : Nat := %d\n" % he[0]
+    t += "def histEdgesDropRight : Nat := %d\n" % he[1]
+    t += "def histKeepsCount : Bool := %s\n" % b(he[2])
+    t += "\n/-- DataFrame.profile: the property calls TableProfile.from_dataframe(self) on every access (`@property` alone, no cache) -/\n"
+    t += "def profileEntryRecomputes : Bool := %s\n" % b(er)
+    t += "\n/-- ColumnProfile.__add__: `new_profile.transitions += profile.transitions + 1` and the update of `order` -/\n"
+    t += "def addTransitions (mine theirs : Nat) : Nat := %s\n" % v["add_tr"]
+    t += "def addOrder (mine theirs : Option Int) : Option Int := %s\n" % v["add_or"]
     t += "end Gen.ProfileExpr\n"
     if _force_pinned:
         del o.item  # back to the class method
